@@ -732,7 +732,16 @@ func (s *pstate) term(v ssa.Value) string {
 			}
 			return "*" + addr
 		case token.NOT:
-			return "!" + s.term(x.X)
+			switch t := s.term(x.X); {
+			case t == "true":
+				return "false"
+			case t == "false":
+				return "true"
+			case strings.HasPrefix(t, "!") && !strings.ContainsAny(t[1:], " "):
+				return t[1:] // !!x
+			default:
+				return "!" + t
+			}
 		case token.SUB:
 			return "-" + s.term(x.X)
 		case token.ARROW:
